@@ -42,8 +42,8 @@ WEIGHTS = {
     "C19": {"find": 1, "redesign": 1, "sim": 2, "size": 1, "regen": 1, "report": 5, "tick": 2, "rebuild": 0, "other": 1.5},
     "C01": {"find": 2, "redesign": 2, "abort_find": 2, "other": 1, "nominal": 2, "rebuild": 2, "tick": 0, "reconf": 2},
     "C02": {"find": 2, "redesign": 1, "abort_find": 1, "nominal": 1, "rebuild": 1, "reconf": 1},
-    "C05": {"find": 2, "redesign": 1, "abort_find": 1, "nominal": 1, "rebuild": 1},
-    "C20": {"find": 1, "twin": 4, "redesign": 1},
+    "C05": {"find": 2, "redesign": 1, "abort_find": 1, "nominal": 1, "rebuild": 1, "ghe_new": 2, "size": 1, "regen": 1, "sim": 1},
+    "C20": {"find": 1, "twin": 4, "redesign": 1, "other": 2, "reconf": 2},
     "C17": {"find": 1},
 }
 CHEAP_METHODS = ["NEARSQUARE", "RECTANGLE", "NEARSQUARE", "RECTANGLE", "BIRECTANGLE"]
@@ -54,8 +54,12 @@ ALL_METHODS_WEIGHTED = ["NEARSQUARE", "NEARSQUARE", "RECTANGLE", "RECTANGLE", "B
 def draw_plan(rng: random.Random, prop: str, tier: str = "quick", methods=None, max_ops=None, target=None) -> dict:
     methods = methods or ALL_METHODS_WEIGHTED
     if prop == "C12" and target is None:
-        target = rng.choices(["bracket", "tiny", "huge"], [0.5, 0.3, 0.2])[0]
-    cfg = gen.draw_cfg(rng, methods=methods, target=target)
+        target = rng.choices(["bracket", "tiny", "huge", "clamp_min"], [0.35, 0.2, 0.15, 0.3])[0]
+    months = None
+    if prop == "C19":
+        # the time-labelling statement reaches 30 years: long horizons are over-represented here (hybrid steps stay ~O(100))
+        months = rng.choice([12, 12, 24, 36, 60, 120, 240, 300, 360])
+    cfg = gen.draw_cfg(rng, methods=methods, target=target, months=months)
     if prop in ("C12", "C02", "C05") and cfg["target"] in ("tiny", "huge"):
         cfg["simulation"]["continue_if_design_unmet"] = rng.random() < 0.75
     cfg2 = gen.draw_cfg(rng, methods=CHEAP_METHODS, months=12)
@@ -136,7 +140,17 @@ def draw_plan(rng: random.Random, prop: str, tier: str = "quick", methods=None, 
             ops.append({"op": "other", "cfg_key": rng.choice(["cfg2", "variant", "variant"])})
         else:
             ops.append({"op": k, "mgr": "A"})
-    if prop == "C13" and any(o["op"] in ("other", "reconf") for o in ops) and rng.random() < 0.5:
+    if prop == "C13" and rng.random() < 0.2:
+        # leak probe: a near-identical design (exactly one section group differs) runs first in this process - on this
+        # manager or on another one - and the base design is then compared with a pristine interpreter's
+        variant = make_variant(rng, cfg, k=1)
+        if rng.random() < 0.5:
+            ops = [{"op": "build", "mgr": "A", "order": order, "decoys": [], "cfg_key": "variant"}, {"op": "find", "mgr": "A"},
+                   {"op": "reconf", "mgr": "A", "to": "base"}, {"op": "pristine", "mgr": "A"}]
+        else:
+            ops = [{"op": "other", "cfg_key": "variant"}, {"op": "build", "mgr": "A", "order": order, "decoys": decoys, "cfg_key": "base"},
+                   {"op": "find", "mgr": "A"}, {"op": "pristine", "mgr": "A"}]
+    elif prop == "C13" and any(o["op"] in ("other", "reconf") for o in ops) and rng.random() < 0.5:
         # histories in which a process-global leak is plausible end with a comparison against a pristine interpreter
         ops.append({"op": "find", "mgr": "A"})
         ops.append({"op": "pristine", "mgr": "A"})
@@ -152,13 +166,13 @@ GROUPS = {"soil": ["soil"], "grout": ["grout"], "fluid": ["fluid"], "pipe_boreho
           "simulation": ["simulation"], "geometry": ["geometry"], "loads": ["loads"], "design": ["design"]}
 
 
-def make_variant(rng: random.Random, cfg: dict) -> dict:
+def make_variant(rng: random.Random, cfg: dict, k=None) -> dict:
     """cfg with 1-3 section groups replaced by those of another draw for the same design method: the 'almost the same
     design' that a cache keyed on part of the state, or an object shared between calls, would confuse with cfg."""
     other = gen.draw_cfg(rng, methods=[cfg["geometry"]["method"]], pipes=[cfg["pipe"]["arrangement"]],
                          months=cfg["simulation"]["num_months"])
     names = list(GROUPS)
-    k = rng.choice([1, 1, 1, 1, 2, 3])
+    k = k or rng.choice([1, 1, 1, 1, 2, 3])
     chosen = rng.sample(names, k)
     v = copy.deepcopy(cfg)
     for g in chosen:
@@ -540,6 +554,16 @@ def _history_kind(ctx: Ctx) -> str:
     return "plain" if s.count("build") <= 1 else "rebuild"
 
 
+def find_recorded(ctx: Ctx, mgr) -> dict:
+    """do_find with (for C20) every evaluation's flow values recorded; always resets ctx.flow_rec."""
+    rec = FlowRecorder() if ctx.prop == "C20" else None
+    ctx.flow_rec = None
+    with (rec.installed() if rec else contextlib.nullcontext()):
+        out = do_find(mgr)
+    ctx.flow_rec = rec
+    return out
+
+
 def op_find(ctx: Ctx, i, op):
     name = op["mgr"]
     mgr = ctx.mgrs[name]
@@ -548,10 +572,7 @@ def op_find(ctx: Ctx, i, op):
         ctx.bump("probe:find_started_after_aborted_find")
     if mgr._borehole.H != cfg["borehole"]["height"]:
         ctx.bump("probe:find_started_with_H_not_nominal")
-    rec = FlowRecorder() if ctx.prop == "C20" else None
-    with (rec.installed() if rec else contextlib.nullcontext()):
-        out = do_find(mgr)
-    ctx.flow_rec = rec
+    out = find_recorded(ctx, mgr)
     ctx.state[name]["last"] = out
     ctx.state[name]["aborted"] = False
     ctx.state[name]["touched"] = False
@@ -578,7 +599,7 @@ def op_nominal(ctx: Ctx, i, op):
     st["cfg"] = cfg
     mgr_cfg_nominal = op["height"]
     ctx.bump("probe:nominal_height_changed")
-    out = do_find(mgr)
+    out = find_recorded(ctx, mgr)
     st["last"] = out
     st["aborted"] = False
     st["nominal_override"] = mgr_cfg_nominal
@@ -599,7 +620,8 @@ def op_reconf(ctx: Ctx, i, op):
         for gname, secs in GROUPS.items():
             if any(cur[sec] != target[sec] for sec in secs) or (gname == "pipe_borehole" and st.get("nominal_override")):
                 for sec in secs:
-                    gen._call_setter(mgr, sec, target, gen._LOADS_CACHE)
+                    if sec != "design":  # the design section is applied by set_design below
+                        gen._call_setter(mgr, sec, target, gen._LOADS_CACHE)
                 changed.append(gname)
         mgr.set_design(flow_rate=target["design"]["flow_rate"], flow_type_str=target["design"]["flow_type"])
     st["cfg"] = target
@@ -607,7 +629,7 @@ def op_reconf(ctx: Ctx, i, op):
     ctx.bump("probe:manager_reconfigured_between_finds")
     for c in changed:
         ctx.bump(f"reconf_section:{c}")
-    out = do_find(mgr)
+    out = find_recorded(ctx, mgr)
     st["last"] = out
     st["aborted"] = False
     st["touched"] = False
@@ -623,6 +645,7 @@ def op_abort_find(ctx: Ctx, i, op):
         mgr.set_design(flow_rate=cfg["design"]["flow_rate"], flow_type_str=cfg["design"]["flow_type"])
     ABORTS.arm(op["site"], op["k"])
     fired = False
+    ctx.flow_rec = None
     try:
         out = do_find(mgr)
     except seams.InjectedAbort:
@@ -652,7 +675,10 @@ def op_other(ctx: Ctx, i, op):
         ctx.bump("probe:near_identical_design_ran_in_between")
     with Quiet():
         m2 = gen.build_manager(cfg2)
-    out = do_find(m2)
+    out = find_recorded(ctx, m2)
+    if ctx.prop == "C20" and "ok" in out:
+        _check_flow_records(ctx, i, cfg2, m2)
+    ctx.flow_rec = None
     ctx.mgrs["B"] = m2
     ctx.state["B"] = {"cfg": cfg2, "last": out, "aborted": False}
     ctx.log.add("other", None, out.get("ok") or [out.get("exc"), out.get("msg")])
@@ -785,6 +811,20 @@ def op_size(ctx: Ctx, i, op):
     got = run(g)
     ctx.log.add("size", None, got)
     _touch(ctx, name)
+    if ctx.prop == "C05" and "H" in got:
+        # the sized height is a root of the excess unless it is clamped at a bound (re-simulation of the same object)
+        sim = _obj_cfg(ctx, name)["simulation"]
+        with Quiet():
+            mx, mn = g.simulate(method=TimestepType.HYBRID)
+        e = max(mx - sim["max_eft"], sim["min_eft"] - mn)
+        h = got["H"]
+        ctx.bump("c05_sizings_checked")
+        if sim["min_height"] < h and e < -TOL:
+            ctx.violation(Violation("C05", "height_oversized", f"size() after {ctx.shape[:-1]} returns {h:.4f} m with excess {e:.5f} "
+                                                                f"< -1e-3 and H > min", site="size_op"), i, {"mode": "real"})
+        if h < sim["max_height"] and e > TOL:
+            ctx.violation(Violation("C05", "height_not_root_infeasible", f"size() after {ctx.shape[:-1]} returns {h:.4f} m with excess "
+                                                                          f"{e:.5f} > 1e-3 and H < max", site="size_op"), i, {"mode": "real"})
     if ctx.prop == "C13":
         rg = _fresh_like(ctx, name, g)
         want = run(rg)
@@ -1268,16 +1308,24 @@ def run_plan(plan: dict) -> dict:
     return info
 
 
-def run_many(jobspec: dict) -> dict:
-    outs = []
+def make_plans(jobspec: dict) -> list:
+    out = []
     for i in range(jobspec["start"], jobspec["start"] + jobspec["count"]):
         rng = derive_rng(jobspec["seed"], "E1", jobspec["prop"], i)
-        plan = draw_plan(rng, jobspec["prop"], jobspec.get("tier", "quick"), jobspec.get("methods"), jobspec.get("max_ops"),
-                         jobspec.get("target"))
+        out.append(draw_plan(rng, jobspec["prop"], jobspec.get("tier", "quick"), jobspec.get("methods"), jobspec.get("max_ops"),
+                             jobspec.get("target")))
+    return out
+
+
+def run_many(jobspec: dict) -> dict:
+    outs = []
+    for k, plan in enumerate(make_plans(jobspec)):
+        i = jobspec["start"] + k
         r = run_plan(plan)
         r["index"] = i
         if r["status"] == "violation":
             r["plan"] = plan
+            r["jobspec"] = jobspec
         if i % 5:
             r.pop("sample", None)
         outs.append(r)
